@@ -60,6 +60,10 @@ func init() {
 		"(encoding/binary.bigEndian).Uint32":    specBEGet(4),
 		"(encoding/binary.bigEndian).Uint64":    specBEGet(8),
 		"math/bits.RotateLeft32": specRotl32,
+		"maps.Values": specMapsSeq(1),
+		"maps.Keys":   specMapsSeq(0),
+		"slices.Collect": specSlicesCollect,
+		"slices.Values":  specSlicesValues,
 	}
 }
 
@@ -361,3 +365,102 @@ func (c *Ctx) unrollRange(env *Env, x *ast.RangeStmt, st *State, label string) [
 }
 
 var _ = token.NoPos
+
+// specMapsSeq: maps.Values / maps.Keys yield each entry of the map exactly once, in an
+// unspecified order. Modelled as a finite sequence with two skolem functions:
+// key_of(seq, i) (the key behind position i) and idx_of(seq, k) (the position of key k).
+func specMapsSeq(which int) specFn {
+	return func(env *Env, recv *Val, args []Val, st *State, call *ast.CallExpr) Val {
+		c := env.c
+		m := args[0]
+		mt, ok := types.Unalias(env.subst(m.Ty)).Underlying().(*types.Map)
+		if !ok {
+			c.unsupported("maps.Values of non-map")
+			return Val{}
+		}
+		c.trust("maps.Values/maps.Keys: a finite sequence enumerating every map entry exactly once in unspecified order")
+		ms := env.sortOf(m.Ty)
+		et := mt.Elem()
+		if which == 0 {
+			et = mt.Key()
+		}
+		seqT := seqType(et)
+		ss := env.sortOf(seqT)
+		sv := c.fresh("mapseq", ss)
+		ln := app(c.seqLenFn(ss), sv)
+		at := seqAtFn(c, env, ss, et, 0)
+		ks := env.sortOf(mt.Key())
+		keyOf := "mapseq_key_" + mangle(ss) + "_" + mangle(ks)
+		idxOf := "mapseq_idx_" + mangle(ss) + "_" + mangle(ks)
+		c.decls.declFun(keyOf, []string{ss, "Int"}, ks)
+		c.decls.declFun(idxOf, []string{ss, ks}, "Int")
+		has := app("mh_"+ms, m.T)
+		val := func(k string) string {
+			if which == 0 {
+				return k
+			}
+			return app("select", app("mv_"+ms, m.T), k)
+		}
+		i := c.freshBound("i")
+		k := c.freshBound("k")
+		st.assume(eq(ln, app("mc_"+ms, m.T)))
+		st.assume(app("<=", "0", ln))
+		st.assume(fmt.Sprintf("(forall ((%s Int)) (! (=> (and (<= 0 %s) (< %s %s)) (and (select %s (%s %s %s)) (= (%s %s %s) %s) (= (%s %s (%s %s %s)) %s))) :pattern ((%s %s %s))))",
+			i, i, i, ln, has, keyOf, sv, i, at, sv, i, val(app(keyOf, sv, i)), idxOf, sv, keyOf, sv, i, i, at, sv, i))
+		st.assume(fmt.Sprintf("(forall ((%s %s)) (! (=> (select %s %s) (and (<= 0 (%s %s %s)) (< (%s %s %s) %s) (= (%s %s (%s %s %s)) %s) (= (%s %s (%s %s %s)) %s))) :pattern ((select %s %s))))",
+			k, ks, has, k, idxOf, sv, k, idxOf, sv, k, ln, keyOf, sv, idxOf, sv, k, k, at, sv, idxOf, sv, k, val(k), has, k))
+		return Val{T: sv, Ty: seqT}
+	}
+}
+
+// seqType builds the Go type iter.Seq[E] = func(yield func(E) bool).
+func seqType(et types.Type) types.Type {
+	yield := types.NewSignatureType(nil, nil, nil, types.NewTuple(types.NewVar(token.NoPos, nil, "", et)), types.NewTuple(types.NewVar(token.NoPos, nil, "", tBool)), false)
+	return types.NewSignatureType(nil, nil, nil, types.NewTuple(types.NewVar(token.NoPos, nil, "yield", yield)), nil, false)
+}
+
+func seqAtFn(c *Ctx, env *Env, seqSort string, et types.Type, which int) string {
+	fn := fmt.Sprintf("seq_at%d_%s", which, mangle(seqSort))
+	if len(fn) > 100 {
+		fn = fn[:100]
+	}
+	c.decls.declFun(fn, []string{seqSort, "Int"}, env.sortOf(et))
+	return fn
+}
+
+// slices.Collect(seq): the slice of the sequence's elements in order.
+func specSlicesCollect(env *Env, recv *Val, args []Val, st *State, call *ast.CallExpr) Val {
+	c := env.c
+	sq := args[0]
+	sig, ok := types.Unalias(env.subst(sq.Ty)).Underlying().(*types.Signature)
+	if !ok {
+		c.unsupported("slices.Collect of non-seq")
+		return Val{}
+	}
+	ys := sig.Params().At(0).Type().Underlying().(*types.Signature)
+	et := env.subst(ys.Params().At(0).Type())
+	ss := env.sortOf(sq.Ty)
+	rt := types.NewSlice(et)
+	r := env.havoc(st, "collected", rt)
+	rs := env.sortOf(rt)
+	at := seqAtFn(c, env, ss, et, 0)
+	i := c.freshBound("i")
+	st.assume(eq(app("len_"+rs, r.T), app(c.seqLenFn(ss), sq.T)))
+	st.assume(fmt.Sprintf("(forall ((%s Int)) (! (= (select (arr_%s %s) %s) (%s %s %s)) :pattern ((select (arr_%s %s) %s))))", i, rs, r.T, i, at, sq.T, i, rs, r.T, i))
+	return r
+}
+
+func specSlicesValues(env *Env, recv *Val, args []Val, st *State, call *ast.CallExpr) Val {
+	c := env.c
+	sl := args[0]
+	et := elemOf(env.subst(sl.Ty))
+	seqT := seqType(et)
+	ss := env.sortOf(seqT)
+	sv := c.fresh("sliceseq", ss)
+	s := env.sortOf(sl.Ty)
+	at := seqAtFn(c, env, ss, et, 0)
+	i := c.freshBound("i")
+	st.assume(eq(app(c.seqLenFn(ss), sv), app("len_"+s, sl.T)))
+	st.assume(fmt.Sprintf("(forall ((%s Int)) (! (= (%s %s %s) (select (arr_%s %s) %s)) :pattern ((%s %s %s))))", i, at, sv, i, s, sl.T, i, at, sv, i))
+	return Val{T: sv, Ty: seqT}
+}
